@@ -2685,3 +2685,177 @@ def ob_tour_order_gate(ctx, k):
             break
     res.time = time.time() - t0
     return res
+
+
+# ---------------------------------------------------------------------------------------------------------------------
+# capacity per reload interval (C01: "per reload interval", C05: caches, C06)
+
+def ob_capacity_reload(ctx, before, after, closed=True):
+    """C01/C05/C06 with a reload in the tour: tour = start, `before` jobs, a marker (reload) activity, `after` jobs (, end).
+    The intervals come from the real `get_route_intervals`; `recalculate_states` (real MIR, T := SingleDimLoad, symbolic
+    stale caches) must produce, per interval, the reference profile: static deliveries of an interval are on board from its
+    first activity (the start depot or the reload), static pickups leave at its end; and `evaluate_activity` must accept a
+    single job with static demand at leg p exactly when the piecewise profile with the job inserted stays within capacity."""
+    from symex import DynV
+    k = before + after
+    name = f'capacity_reload[{before}+R+{after},{"closed" if closed else "open"}]'
+    res = Result(name)
+    res.bounds = (f'tour: start, {before} jobs, reload marker, {after} jobs{", end" if closed else ""}; jobs and target carry static pickup and/or static delivery '
+                  f'(single dimension, amounts in [0,2^14], capacity in [0,2^15]); every insertion leg; symbolic stale caches')
+    t0 = time.time()
+    gri = ctx.prog.find_free('route_intervals::get_route_intervals')
+    rs = ctx.prog.find_method('CapacitatedMultiTrip', 'recalculate_states', trait='MultiTrip')
+    ev = ctx.prog.find_method('CapacitatedMultiTrip', 'evaluate_activity')
+    if len(rs) != 1 or len(ev) != 1:
+        raise Inconclusive('CapacitatedMultiTrip::recalculate_states / evaluate_activity not found')
+    n_acts = k + 2 + (1 if closed else 0)
+    marker_idx = before + 1
+
+    def static_demand(env, nm):
+        d = {'sp': env.sym_i(f'{nm}_sp', 0, 2 ** 14, 'i32'), 'sd': env.sym_i(f'{nm}_sd', 0, 2 ** 14, 'i32'), 'dp': IV(0, 'i32'), 'dd': IV(0, 'i32')}
+        return d
+
+    def reference(demands_with_marker):
+        """demands_with_marker: list over job activities (None = the marker). -> loads after each activity incl. start (idx 0) [and end]."""
+        # intervals: [0 .. marker-1], [marker .. last]
+        acts = [None] + list(demands_with_marker) + ([None] if closed else [])      # None at 0 = start depot, trailing None = end depot
+        m = 1 + demands_with_marker.index('R')
+        loads = [None] * len(acts)
+        carry = z3.IntVal(0)
+        for lo, hi in ((0, m - 1), (m, len(acts) - 1)):
+            seg = [a for a in acts[lo:hi + 1] if isinstance(a, dict)]
+            cur = carry + sum([d['sd'].t for d in seg], z3.IntVal(0))
+            for i in range(lo, hi + 1):
+                a = acts[i]
+                if isinstance(a, dict):
+                    cur = cur + a['sp'].t - a['sd'].t
+                loads[i] = cur
+            carry = cur - sum([d['sp'].t for d in seg], z3.IntVal(0))
+        return loads, m
+
+    for p in range(n_acts - (1 if closed else 0)):
+        class Env(drivers.Env):
+            def dyn_call(self, engine, st, trait, method, args, dest_ty):
+                if trait == 'RouteIntervalsState' and method == 'get_route_intervals':
+                    return mk_option(True, RefV(Cell(self.intervals), 0), ty=dest_ty)
+                return super().dyn_call(engine, st, trait, method, args, dest_ty)
+
+            def dyn_closure(self, engine, st, tag, args):
+                if tag == 'is_marker':
+                    act = deref_all(args[0])
+                    job = self.field(act, 'route::Activity', 'job')
+                    return BV(job.variant() == 1 and job.payload[1][0].cell is self.marker_cell)
+                return super().dyn_closure(engine, st, tag, args)
+
+        env = Env(ctx.prog, ctx.layout, 16)
+        env.type_subst = {'T': 'load::SingleDimLoad'}
+        eng = symex.Engine(ctx.prog, ctx.layout, env)
+        holder = {}
+
+        def body(st, p=p, env=env, eng=eng, holder=holder):
+            env.assumptions.clear()
+            capacity = env.sym_i('capacity', 0, 2 ** 15, 'i32')
+            demands = [static_demand(env, f'd{i + 1}') for i in range(k)]
+            target = static_demand(env, 'target')
+            zero, mx = FV.const(0), FV.max_value()
+            marker = ArcV(Cell(env.struct('jobs::Single', places=VecV([]), dimens=StateV({}))))
+            env.marker_cell = marker.cell
+            acts = [env.activity(IV(0), zero, zero, mx, zero, zero, has_job=False)]
+            seq = []
+            for i in range(k + 1):
+                if i == before:
+                    acts.append(env.activity(IV(50), zero, zero, mx, zero, zero, job=marker))
+                    seq.append('R')
+                if i < k:
+                    acts.append(env.activity(IV(i + 1), zero, zero, mx, zero, zero, job=single_job(env, demands[i])))
+                    seq.append(demands[i])
+            if closed:
+                acts.append(env.activity(IV(0), zero, zero, mx, zero, zero, has_job=False))
+            dimens = StateV({'vehicle_capacity': load_v(env, capacity.t)})
+            actor = env.actor(IV(0), zero, IV(0) if closed else None, FV.const(1000) if closed else mx, dimens=dimens)
+            rc = env.route_ctx(actor, acts, closed)
+            state = env.state_of(rc)
+            for key in ('current_capacity', 'max_past_capacity', 'max_future_capacity'):
+                state.table[key] = VecV([load_v(env, z3.Int(f'stale_{key}_{i}')) for i in range(len(acts))])
+            # intervals by the real function (marker predicate = identity of the marker job)
+            route = env.field(rc, 'context::RouteContext', 'route')
+            env.intervals = eng.exec_fn(st, gri, [RefV(Cell(route), 0), Agg('closure', [], 'is_marker', fn_name='is_marker') if False else ArcV(Cell(DynV('is_marker')))])
+            holder['intervals'] = [(t.fields[0].concrete(), t.fields[1].concrete()) for t in env.intervals.items]
+            multiple = EnumV('route_intervals::RouteIntervals', 1, {1: [ArcV(Cell(DynV('is_marker_single'))), ArcV(Cell(DynV('is_new_interval_needed'))),
+                                                                         ArcV(Cell(DynV('is_obsolete_interval'))), ArcV(Cell(DynV('is_assignable'))),
+                                                                         ArcV(Cell(DynV('intervals_state')))]})
+            mt = env.struct('capacity::CapacitatedMultiTrip', route_intervals=multiple, violation_code=Agg('struct', [IV(2, 'i32')], 'goal::ViolationCode'), phantom=UnitV())
+            cell = Cell(rc)
+            eng.exec_fn(st, rs[0], [RefV(Cell(mt), 0), RefV(cell, 0, True)])
+            rc = cell.v
+            holder.update(capacity=capacity, seq=seq, target=target, state=env.state_of(rc))
+            tgt_act = env.activity(IV(99), zero, zero, mx, zero, zero, job=single_job(env, target))
+            acts_vec = env.field(env.field(env.field(rc, 'context::RouteContext', 'route'), 'route::Route', 'tour'), 'solution::tour::Tour', 'activities')
+            n = len(acts_vec.items)
+            actx = activity_ctx(env, p, RefV(acts_vec, p), RefV(Cell(tgt_act), 0), RefV(acts_vec, p + 1) if p + 1 < n else None)
+            return eng.exec_fn(st, ev[0], [RefV(Cell(mt), 0), RefV(Cell(rc), 0), RefV(Cell(actx), 0)])
+
+        paths = eng.explore(body)
+        res.paths += len(paths)
+        res.functions |= eng.functions_used
+        saw_acc = saw_rej = False
+        for st, out in paths:
+            capacity, seq, target, state = holder['capacity'], holder['seq'], holder['target'], holder['state']
+            if holder['intervals'] != [(0, marker_idx - 1), (marker_idx, n_acts - 1)]:
+                res.status, res.detail = 'violated', f'{name}: get_route_intervals returned {holder["intervals"]}'
+                break
+            loads, m = reference(seq)
+            assume = [z3.And(*[l <= capacity.t for l in loads])]
+            if out is None:
+                if not no_panic(ctx, res, env, st, assume, what=name):
+                    break
+                continue
+            cur = state.table['current_capacity'].items
+            past = state.table['max_past_capacity'].items
+            fut = state.table['max_future_capacity'].items
+            val = lambda a: a.fields[0].t
+            claims = []
+            for lo, hi in ((0, m - 1), (m, n_acts - 1)):
+                for i in range(lo, hi + 1):
+                    claims.append(val(cur[i]) == loads[i])
+                    mp = z3.IntVal(0)
+                    for j in range(lo, i + 1):
+                        mp = z3.If(loads[j] > mp, loads[j], mp)
+                    claims.append(val(past[i]) == mp)
+                    mf = loads[hi]
+                    for j in range(i, hi + 1):
+                        mf = z3.If(loads[j] > mf, loads[j], mf)
+                    claims.append(val(fut[i]) == mf)
+            def case_of(kind_, m):
+                evd = lambda d: {key: _ev_int(m, d[key].t) for key in ('sp', 'dp', 'sd', 'dd')}
+                jobs_doc = [{'loc': 50, 'dur': 0, 'tws': 0, 'twe': None, 'reload': True} if x == 'R' else {'loc': 1 + i, 'dur': 0, 'tws': 0, 'twe': None, 'demand': evd(x)}
+                            for i, x in enumerate(seq)]
+                return {'kind': kind_, 'closed': closed, 'shift_start': 0, 'dep0': 0, 'shift_end': 100000 if closed else None, 'l0': 0, 'lend': 0,
+                        'capacity': _ev_int(m, capacity.t), 'leg': p, 'dur': [], 'dist': [], 'dur_default': 0, 'dist_default': 0, 'jobs': jobs_doc,
+                        'target': {'loc': 99, 'dur': 0, 'tws': 0, 'twe': None, 'demand': evd(target)}}
+            if not decide_claim(ctx, res, env, st, z3.And(*claims), assume, what=f'{name} leg {p}: load caches == piecewise reference profile'):
+                if res.status == 'violated' and res.model is not None:
+                    res.case = case_of('capacity_caches', res.model)
+                break
+            # insertion at leg p: the target goes after activity p; in the job sequence that is position p (activities are offset by the start depot)
+            post_seq = seq[:p] + [target] + seq[p:]
+            post_loads, _ = reference(post_seq)
+            post_ok = z3.And(*[l <= capacity.t for l in post_loads])
+            accepted = zs(out.discr == 0)
+            has_demand = z3.Or(target['sp'].t != 0, target['sd'].t != 0)
+            if not decide_claim(ctx, res, env, st, accepted == post_ok, assume, what=f'{name} leg {p}: accepted <=> piecewise load profile after insertion within capacity'):
+                if res.status == 'violated' and res.model is not None:
+                    res.case = case_of('capacity_gate_exact', res.model)
+                break
+            if not no_panic(ctx, res, env, st, assume, what=name):
+                break
+            saw_acc = saw_acc or witness(ctx, res, env, st, z3.And(accepted, has_demand), assume)
+            saw_rej = saw_rej or witness(ctx, res, env, st, z3.Not(accepted), assume)
+        if res.status != 'holds':
+            break
+        res.witnesses += int(saw_acc) + int(saw_rej)
+        if not (saw_acc and saw_rej):
+            res.status, res.detail = 'inconclusive', f'vacuous at leg {p}: accepted={saw_acc} rejected={saw_rej}'
+            break
+    res.time = time.time() - t0
+    return res
